@@ -238,3 +238,39 @@ Proof.
   - intros n H. vm_compute in H. inversion H. lia.
   - apply wfbb_wf. vm_compute. reflexivity.
 Qed.
+
+(* ---- the premises about thrift.Binary.Skip discharged (coordinator, after merging C02/C08): they
+        are C02's exactness theorem, the grammar's byte well-formedness and C08's safety/extent bound
+        for the same model Model/Skip.v ---- *)
+From GV Require Proofs.GrammarP Proofs.C02P Proofs.SkipP.
+
+Theorem C11_SK_exact : SK_exact_statement.           Proof. exact C02P.bskip_exact. Qed.
+Theorem C11_ENC_wf : ENC_wf_statement.               Proof. exact GrammarP.enc_wf. Qed.
+Theorem C11_SK_safe : SK_safe_statement.             Proof. exact SkipP.bskip_safe. Qed.
+Theorem C11_SK_bounded : SK_bounded_statement.       Proof. exact SkipP.bskip_bounded. Qed.
+
+Theorem C11_read_any_order_unknowns_base_closed : forall p its rest,
+  forallb (ritem_ok base_schema) its = true -> wf rest ->
+  base_read (Some p) (enc_ritems its ++ rest) = Ok (Some (apply_items base_apply p its), len (enc_ritems its)).
+Proof. exact (C11_read_any_order_unknowns_base C11_SK_exact C11_ENC_wf). Qed.
+
+Theorem C11_read_any_order_unknowns_baseresp_closed : forall p its rest,
+  forallb (ritem_ok baseresp_schema) its = true -> wf rest ->
+  baseresp_read (Some p) (enc_ritems its ++ rest) = Ok (Some (apply_items baseresp_apply p its), len (enc_ritems its)).
+Proof. exact (C11_read_any_order_unknowns_baseresp C11_SK_exact C11_ENC_wf). Qed.
+
+Theorem C11_read_any_order_unknowns_appex_closed : forall e its rest,
+  forallb (ritem_ok appex_schema) its = true -> wf rest ->
+  appex_read (Some e) (enc_ritems its ++ rest) =
+  Ok (Some (xrec (apply_items appex_apply (xpair e) its)), len (enc_ritems its)).
+Proof. exact (C11_read_any_order_unknowns_appex C11_SK_exact C11_ENC_wf). Qed.
+
+Theorem C11_fastread_total_closed : forall b, wf b ->
+  safe (fastread_base b) /\ safe (fastread_baseresp b) /\ safe (fastread_appex b).
+Proof. exact (C11_fastread_total C11_SK_safe C11_SK_bounded). Qed.
+
+Theorem C11_fastread_bounded_closed : forall b n, wf b ->
+  (forall p, fastread_base b = Ok (p, n) -> n <= len b) /\
+  (forall p, fastread_baseresp b = Ok (p, n) -> n <= len b) /\
+  (forall p, fastread_appex b = Ok (p, n) -> n <= len b).
+Proof. exact (C11_fastread_bounded C11_SK_safe C11_SK_bounded). Qed.
